@@ -35,6 +35,10 @@ def replay(contract, label, model, note=""):
     f, n = tr.sweep_c09("quick", 0)
     f8, n8 = tr.sweep_c08("quick", 0)
     want = contract.split(".")[0].split("[")[0]
+    if want in ("Accumulator", "Updater"):
+        fr, nr = _routing(0)
+        if fr:
+            return {"reproduced": True, "failure": fr[0], "concrete": fr[0]["input"], "search": {"points_tried": nr}}
     f = [x for x in f + f8 if f"/{want}/" in x["what"]] or [x for x in f if x["what"].startswith("C09/") and "Homeostasis" not in x["what"]]
     if f:
         return {"reproduced": True, "failure": f[0], "concrete": f[0]["input"], "search": {"points_tried": n}}
